@@ -74,14 +74,22 @@ type sentReq struct {
 	calldata string
 }
 
-func (s *session) now() int { return int(s.r.Time.Unix() - s.w.Cfg.GenesisTime.Unix()) }
+// the family's clock unit is half a second (Oracle.tla Units = 2): block times and validator-status times carry the
+// full block time, request / resolve times are whole seconds
+const unit = 500 * time.Millisecond
+const unitsPerSec = int(time.Second / unit)
+
+func (s *session) now() int { return int(s.r.Time.Sub(s.w.Cfg.GenesisTime) / unit) }
 
 func (s *session) rel(t time.Time) int {
 	if t.IsZero() || t.Unix() <= 0 {
 		return -1
 	}
-	return int(t.Unix() - s.w.Cfg.GenesisTime.Unix())
+	return int(t.Sub(s.w.Cfg.GenesisTime) / unit)
 }
+
+// relSec: a time the chain stores in whole seconds, in clock units
+func (s *session) relSec(unix int64) int { return int(unix-s.w.Cfg.GenesisTime.Unix()) * unitsPerSec }
 
 func (s *session) valByName(n string) (sdk.ValAddress, bool) {
 	for _, v := range s.w.Vals {
@@ -127,7 +135,7 @@ func (s *session) project() tf.M {
 			sort.Strings(vals)
 			reqs = append(reqs, tf.M{
 				"present": true, "vals": vals, "min": int(rq.MinCount), "rh": int(rq.RequestHeight),
-				"rt": int(rq.RequestTime - s.w.Cfg.GenesisTime.Unix()),
+				"rt": s.relSec(rq.RequestTime),
 				"ok": rq.OracleScriptID == world.ScriptOK3 || rq.OracleScriptID == world.ScriptOK1 || rq.OracleScriptID == world.ScriptOKNil || rq.OracleScriptID == world.ScriptW4 || rq.OracleScriptID == world.ScriptDesc,
 			})
 		} else {
@@ -149,8 +157,8 @@ func (s *session) project() tf.M {
 			}
 			ress = append(ress, tf.M{
 				"status": statusName(rr.ResolveStatus), "ans": int(rr.AnsCount), "ask": int(rr.AskCount),
-				"min": int(rr.MinCount), "rt": int(rr.RequestTime - s.w.Cfg.GenesisTime.Unix()),
-				"resT": int(rr.ResolveTime - s.w.Cfg.GenesisTime.Unix()), "mirror": mirror,
+				"min": int(rr.MinCount), "rt": s.relSec(rr.RequestTime),
+				"resT": s.relSec(rr.ResolveTime), "mirror": mirror,
 			})
 		} else {
 			ress = append(ress, tf.M{"status": "NONE"})
@@ -171,7 +179,7 @@ func (s *session) project() tf.M {
 	return tf.M{
 		"h": int(s.r.Height), "now": s.now(), "count": int(count),
 		"lastExpired": int(k.GetRequestLastExpired(ctx)),
-		"exp":         int(p.ExpirationBlockCount), "penalty": int(time.Duration(p.InactivePenaltyDuration) / time.Second),
+		"exp":         int(p.ExpirationBlockCount), "penalty": int(time.Duration(p.InactivePenaltyDuration) / unit),
 		"req":         reqs, "rep": reps, "res": ress, "pending": pend, "vstat": vst, "resolveEv": evs,
 	}
 }
@@ -253,11 +261,11 @@ func (d *Driver) RunScript(sc tf.Script) {
 	// environment: parameters of this trace
 	p := k.GetParams(s.r.Ctx)
 	p.ExpirationBlockCount = uint64(tf.Int(sc.C, "exp", 2))
-	p.InactivePenaltyDuration = uint64(time.Duration(tf.Int(sc.C, "penalty", 2)) * time.Second)
+	p.InactivePenaltyDuration = uint64(time.Duration(tf.Int(sc.C, "penalty", 2)) * unit)
 	if err := k.SetParams(s.r.Ctx, p); err != nil {
 		panic(err)
 	}
-	s.r.BeginBlock(100) // h = 2, now = 100
+	s.r.BeginBlockAfter(100 * unit) // h = 2, now = 100 (clock units)
 	if tf.Bool(sc.C, "initActive", true) {
 		// prelude through the real handler: everybody activates in block 2, the trace starts in block 3
 		for _, v := range w.Vals {
@@ -266,7 +274,7 @@ func (d *Driver) RunScript(sc tf.Script) {
 			}
 		}
 		s.r.EndBlock()
-		s.r.BeginBlock(1)
+		s.r.BeginBlockAfter(unit)
 	}
 	d.W.Reset(sc.C, s.project(), sc.Steps)
 	d.St.Traces++
@@ -406,7 +414,7 @@ func (s *session) apply(step tf.M) {
 		} else if o.Count(oracletypes.EventTypeResolve) > 0 {
 			s.interesting = true
 		}
-		ob := s.r.BeginBlock(int64(dt))
+		ob := s.r.BeginBlockAfter(time.Duration(dt) * unit)
 		res := tf.M{"ok": o.OK() && ob.OK()}
 		s.d.W.Step("EndBlock", tf.M{"dt": dt}, res, s.project())
 	default:
